@@ -80,6 +80,8 @@ def conc_job(jid, fam, front, progs, explore, draw=NEVER, prefill=(), mkdirs_ext
     cfg = {"roots": roots, "front": name, "cap": (cache.get("cap") if name in ("plain", "sharded") else cache.get("writer", {}).get("cap", 1000000))}
     if name.startswith("stack"):
         cfg["autosync"] = True
+    if name == "sharded":
+        cfg["shardcap"] = (cache["cap"] + cache["shards"] - 1) // cache["shards"]
     if cfg_extra:
         cfg.update(cfg_extra)
     return job(jid, stages, cfg, explore, fam=fam)
@@ -113,7 +115,7 @@ def conc_families(front_name):
         base += [
             ([E(k)], [S(k), G(k)]),
             ([E(k, chunks=2)], [E(k), G(k)]),
-            ([E("k2")], [E("k2"), G("k2")]),
+            ([E("k2", chunks=2)], [E("k2", chunks=2), G("k2")]),
             ([U(k, "promote")], [P(k), G(k)]),
             ([U(k, "replace")], [G(k), E(k)]),
             # the value is staged on another filesystem than the cache (rename fails with EXDEV)
@@ -198,6 +200,8 @@ def check_C01(work):
             for pre in ((), (("k", "old"),)):
                 jid = "C01-%s-%d-%s" % (fr[0], i, "pre" if pre else "empty")
                 jobs.append(conc_job(jid, fam, fr, progs, dfs(n, Q(2, 3)), prefill=pre))
+                # DFS varies the end of the schedule first; seeded random schedules reach races in the middle
+                jobs.append(conc_job(jid + "-rnd", fam, fr, progs, rnd(Q(25, 400), seed() + 1000 + i), prefill=pre))
         # maintenance on every write (tiny capacity): evictions race with readers
         fr1 = fronts(1, (fr[0],))[0]
         for i, progs in enumerate([([S("k1")], [S("k2"), G("k1")]), ([P("k1"), G("k2")], [S("k2"), G("k1")])]):
@@ -210,7 +214,7 @@ def check_C01(work):
         jobs.append(conc_job("C01-%s-3p" % fr[0], "%s:3p" % fr[0], fr, progs, rnd(Q(60, 1500), seed() + 99)))
     mons = ["DirValid", "HandleContentOK", "Immutable"]
     st = trace_check(work, out, jobs, mons, tag="c01", conform=True)
-    design = design_runs(work, out, Q(["MCplain2q"], ["MCplain2q", "MCplain2"]))
+    design = design_runs(work, out, Q(["MCplain2q", "MCshard1"], ["MCplain2q", "MCplain2", "MCshard1", "MCshard2"]))
     cov = coverage_mc(st, design,
                       "schedules of 2-3 participants explored by preemption-bounded DFS / seeded random at system-call granularity; "
                       "every snapshot of every step and every returned handle judged by DirValid/HandleContentOK/Immutable",
@@ -241,6 +245,12 @@ def check_C05(work):
             # directories initially missing (no setup) and present
             jobs.append(conc_job("C05-%s-%d-nodirs" % (fr[0], i), fam + ":nodirs", fr, progs, dfs(n, 2), draw=ALWAYS, presetup=False))
             jobs.append(conc_job("C05-%s-%d" % (fr[0], i), fam, fr, progs, dfs(n, 2), draw=ALWAYS, prefill=(("k3", "old3"),)))
+            jobs.append(conc_job("C05-%s-%d-rnd" % (fr[0], i), fam, fr, progs, rnd(Q(25, 400), seed() + 2000 + i), draw=ALWAYS, prefill=(("k3", "old3"),)))
+        # adversary against ensure: the entry vanishes between ensure's insertion and its second lookup
+        if fr[0].startswith("stack"):
+            for at in range(1, Q(30, 60)):
+                jobs.append(conc_job("C05-%s-advens-%d" % (fr[0], at), "%s:adversary:ensure" % fr[0], fr, ([E("k7"), G("k7")], [T("k3")]),
+                                     rnd(1, seed() + at), draw=NEVER, prefill=(("k3", "old3"),), adv=[{"at": at, "path": "W/k7"}]))
         # adversary: delete published files at every step of a base schedule
         progs = ([S("k1"), G("k3")], [P("k3"), T("k1")])
         for at in range(1, Q(14, 40)):
@@ -254,7 +264,7 @@ def check_C05(work):
                                      adv=[{"at": at, "path": vpath}]))
     mons = ["NoErr", "DirValid"]
     st = trace_check(work, out, jobs, mons, tag="c05", conform=True)
-    design = design_runs(work, out, Q(["MCtouchput", "MCadv"], ["MCtouchput", "MCadv", "MCplain2", "MCclean"]))
+    design = design_runs(work, out, Q(["MCtouchput", "MCadv", "MCshard1"], ["MCtouchput", "MCadv", "MCplain2", "MCclean", "MCshard2"]))
     cov = coverage_mc(st, design,
                       "capacity-1 caches (every write maintains), missing directories, adversarial deletions of published files at each scheduler step; "
                       "every API return judged by NoErr", dict(jobs=len(jobs), monitors=mons))
@@ -1021,14 +1031,19 @@ def c12_vectors(rng, thorough):
         n2 = max(2, n)
         hs = list(base)
         # hashes whose mixed value lands exactly on / next to a shard boundary: mix(h) = ceil(j * 2^64 / n2) (+-1)
-        for j in sorted(set([1, n2 // 2, n2 - 1])):
+        bnd = []
+        for j in sorted(set([1, n2 - 1] + ([n2 // 2] if thorough else []))):
             b = -((-j << 64) // n2)
             for d in (-1, 0, 1):
                 target = (b + d) & M
-                hs.append(((target - PA) * inv_pm) & M)
+                bnd.append(((target - PA) * inv_pm) & M)
+        hs = (hs if thorough else hs[:4]) + bnd
         pairs = []
-        for h in hs[: (len(hs) if thorough else 9)]:
+        for h in hs:
             pairs.append((h, rng.getrandbits(64)))
+        # the last shard as the secondary candidate (largest index: directory naming beyond four hex digits)
+        lo_last = -((-(n2 - 1) << 64) // n2)
+        pairs.append((rng.getrandbits(64), ((lo_last + 12345 - SA) * inv_sm) & M))
         # equal primary / secondary image (the fix-up branch), including the wrap-around at the last shard
         for want in (0, n2 - 1, rng.randrange(n2)):
             for _ in range(200):
@@ -1245,7 +1260,7 @@ def check_C11(work):
             jobs.append(job("C11-%s-%d" % (fname, r), [seq_stage(p1)], cfg, None, fam=fname))
     mons = ["SeqMapOK", "OneCopy", "UnexplainedLoss", "SrcConsumed", "PruneOK", "DirValid", "HandleContentOK", "RemovalOK"]
     st = trace_check(work, out, jobs, mons, tag="c11")
-    design = design_runs(work, out, Q(["MCsc4"], ["MCsc4", "MCclean"]))
+    design = design_runs(work, out, Q(["MCsc4", "MCshard1"], ["MCsc4", "MCclean", "MCshard1"]))
     cov = coverage_mc(st, design, "seeded sequential histories (12-40 operations quick, up to 200 thorough) of set/put/get/touch(/ensure) over <= 6 keys through 1-3 independent "
                       "handles on the same directories; plain (capacities 1, 2, 4, 9, huge), sharded (2-8 shards, total capacity n .. 3n+1 and huge; key hashes chosen to "
                       "collide, swap, coincide and spread), stacked; seeded trigger draws and random-shard choices (hooks); after every operation: SeqMapOK (lookup = "
